@@ -206,10 +206,24 @@ def run_item(ctx, item):
             ctx.call(part.use_musical_beat, mb)
             mode = "musical" + ("-custom" if mb else "")
             get_all_maps(ctx, part)
+            # histories: the beats per signature are changed again while the maps have been read before (no timeline edit between)
+            for _h in range(rng.randint(0, 2)):
+                mb2 = {}
+                for t, b, bt, _ in d["ts"]:
+                    if rng.random() < 0.7:
+                        mb2[f"{b}/{bt}"] = rng.choice([1, 2, 3, b])
+                ctx.call(part.set_musical_beat_per_ts, mb2)
+                get_all_maps(ctx, part)
+                mode += "-reset"
             if rng.random() < 0.5:
                 ctx.call(part.use_notated_beat)
                 get_all_maps(ctx, part)
                 mode += "-back"
+                if rng.random() < 0.5:
+                    mb3 = {f"{b}/{bt}": rng.choice([1, 2, 3, b]) for t, b, bt, _ in d["ts"] if rng.random() < 0.7}
+                    ctx.call(part.use_musical_beat, mb3)
+                    get_all_maps(ctx, part)
+                    mode += "-again"
         nt = (len(d["q"]) > 1 and any(t > d["first"] for t, *_ in d["ts"])) or bool(meta["pickup"])
         ctx.case([d["q"], d["ts"], d["first_measures"], mode], nt, cls="generated",
                  sample={"divisions": d["q"], "time_signatures": d["ts"], "first_measure": d["first_measures"], "mode": mode,
